@@ -59,8 +59,14 @@ func Respace(t *rapid.T, ps []Piece, o RenderOpts) string {
 	if o.Plain {
 		return ""
 	}
-	if rapid.IntRange(0, 3).Draw(t, "tail") == 0 {
+	switch rapid.IntRange(0, 7).Draw(t, "tail") {
+	case 0, 1:
 		return trivia(t, o, true)
+	case 2:
+		if !o.NoComments {
+			// a line comment that runs to the end of the input (no newline), bodies down to the empty one
+			return trivia(t, o, true) + rapid.SampledFrom([]string{"#", "--", "//"}).Draw(t, "tail.opener") + commentBody(t, false)
+		}
 	}
 	return ""
 }
@@ -110,13 +116,44 @@ func gap(t *rapid.T, prev, cur *Lex, first bool, o RenderOpts) string {
 var wsChoices = []string{" ", " ", " ", " ", " ", "\n", "\n", "\t", "  ", "\r\n", " \n ", "\u00a0", "\u00a0 ", "\u3000\n", " \u2028", "\u00a0\t\u00a0", "\v", "\f "}
 var commentChoices = []string{"/* c */", "/**/", "/* ; */", "/* ' \" ` */", "-- c\n", "--\n", "# c ; '\n", "// c\n", "/* -- */", "/*\n*/", "-- /* \n", "/* SELECT */"}
 
+var commentBodyParts = []string{"c", " ", ";", "'", "\"", "`", "/*", "--", "#", "//", "é", "\\", "SELECT", "\t", "*", "/", "@", "{", ")", "\u00a0", "x*"}
+
+// commentBody composes 0-4 parts; a block body may contain newlines and never contains "*/". A lone CR is left out on purpose:
+// whether it ends a line comment is an interpretive decision of the lexical reference (DESIGN 3.5), not something C16 should depend on.
+func commentBody(t *rapid.T, block bool) string {
+	var b strings.Builder
+	for i, n := 0, rapid.IntRange(0, 4).Draw(t, "comment.parts"); i < n; i++ {
+		if block && rapid.IntRange(0, 5).Draw(t, "comment.nl") == 0 {
+			b.WriteString("\n")
+			continue
+		}
+		b.WriteString(rapid.SampledFrom(commentBodyParts).Draw(t, "comment.part"))
+	}
+	if block {
+		return strings.ReplaceAll(b.String(), "*/", "* /")
+	}
+	return b.String()
+}
+
+func comment(t *rapid.T) string {
+	switch rapid.IntRange(0, 3).Draw(t, "comment.kind") {
+	case 0:
+		return rapid.SampledFrom([]string{"--", "#", "//"}).Draw(t, "comment.opener") + commentBody(t, false) + "\n"
+	case 1:
+		return "/*" + commentBody(t, true) + "*/"
+	}
+	return rapid.SampledFrom(commentChoices).Draw(t, "comment")
+}
+
 func trivia(t *rapid.T, o RenderOpts, mayBeEmpty bool) string {
 	var b strings.Builder
 	b.WriteString(rapid.SampledFrom(wsChoices).Draw(t, "ws"))
 	if !o.NoComments {
 		for rapid.IntRange(0, 7).Draw(t, "comment?") == 0 {
-			b.WriteString(rapid.SampledFrom(commentChoices).Draw(t, "comment"))
-			b.WriteString(rapid.SampledFrom(wsChoices).Draw(t, "ws"))
+			b.WriteString(comment(t))
+			if rapid.IntRange(0, 3).Draw(t, "ws-after-comment") > 0 { // a comment may touch the next token
+				b.WriteString(rapid.SampledFrom(wsChoices).Draw(t, "ws"))
+			}
 		}
 	}
 	return b.String()
